@@ -184,6 +184,43 @@ Proof.
 Qed.
 Print Assumptions C02_error_report_renders_strict.
 
+
+(** ---- (6) InjectDiagnostics: which source lines are printed (Model/Render.v [inject_lines]; tied on every run by
+    correspondence with the real diags.InjectDiagnostics on the diagnostics of the file's own problems) ---- *)
+
+(** `slices.Max(lineCoverage(diags))` is the only panic of the function: it happens iff no diagnostic has a position.
+    Positions built by NewPositionRange are never empty (fix 75918ac; C06_positions_nonempty_inside), so a problem
+    with at least one diagnostic renders. *)
+Theorem C02_inject_no_panic_iff :
+  forall nlines ds, (exists l, inject_lines nlines ds = Ok l) <-> List.concat ds <> [].
+Proof. exact inject_lines_ok_iff. Qed.
+Print Assumptions C02_inject_no_panic_iff.
+
+Theorem C02_inject_renders :
+  forall nlines ds d, In d ds -> d <> [] -> exists l, inject_lines nlines ds = Ok l.
+Proof.
+  intros nlines ds d Hin Hd. apply inject_lines_ok_iff. intros E.
+  destruct d as [|x r]; [contradiction|].
+  assert (X : In x (List.concat ds)) by (apply in_concat; exists (x :: r); split; [exact Hin|left; reflexivity]).
+  rewrite E in X. destruct X.
+Qed.
+Print Assumptions C02_inject_renders.
+
+(** Every printed line number is a line of the file, whatever the positions are; and when the positions are inside the
+    file, a source line is printed IFF some diagnostic has a position on it (nothing is lost, nothing is invented). *)
+Theorem C02_inject_lines_in_file :
+  forall nlines ds l x, inject_lines nlines ds = Ok l -> In x l -> (1 <= x <= nlines)%Z.
+Proof. exact inject_lines_in_file. Qed.
+Print Assumptions C02_inject_lines_in_file.
+
+Theorem C02_inject_lines_complete :
+  forall nlines ds l,
+    (forall x, In x (List.concat ds) -> (1 <= x <= nlines)%Z) ->
+    inject_lines nlines ds = Ok l ->
+    forall x, In x l <-> In x (List.concat ds).
+Proof. exact inject_lines_complete. Qed.
+Print Assumptions C02_inject_lines_complete.
+
 (** Non-vacuity / regression of the design-session witness: the strict file with rules `- {}`, `- ~`
     (corpus/C02/empty_rules.yaml) yields two error rules (not the zero Rule that made pint dereference nil),
     both routed to the error check. *)
